@@ -21,6 +21,8 @@ Text is passed as hex of its UTF-8 bytes (`-` = empty).
   (a leading `x` = the request carries no injection option)
 * `c16segs <live> <astTod> <elapsedUs> <depth> <timescale> <segdur> <errs>` → `code=seg,…` | `-`
 * `c16gsi <durs,…> <R> <tc> <fuel>` → `found <m> <s> <o>` | `assert` | `running`
+* `c16vod <segdur> <start_number> <n> <num | t<time>>` → `ok <seg_num> <mod_segment>` | `refused`:
+  the VOD first/last gate and index check of a media request
 * `c16ntp <us>`            → `<seconds> <fraction>` | `StructError`: the NTP fields of `/time/http-ntp`
 -/
 namespace DashLive.Driver.Inject
@@ -256,8 +258,21 @@ def chNtp : List String → Option String
     | .error e => pure (showExc e)
   | _ => none
 
+def chVod : List String → Option String
+  | [sd, sn, n, a] => do
+    let sd ← parseNat sd
+    let sn ← parseNat sn
+    let n ← parseNat n
+    let addr ← (if a.startsWith "t" then (parseNat (a.drop 1).toString).map Addr.time
+                else (parseInt a).map Addr.number)
+    match vodLookup sd sn n addr with
+    | .ok => pure s!"ok {vodSegNum sd sn addr} {vodModSegment sd sn addr}"
+    | .refused => pure "refused"
+    | .raised e => pure (showExc e)
+  | _ => none
+
 def channels : List (String × (List String → Option String)) :=
   [("c16opt", chOpt), ("c16calc", chCalc), ("c16inj", chInj), ("c16segs", chSegs), ("c16gsi", chGsi),
-   ("c16ntp", chNtp)]
+   ("c16ntp", chNtp), ("c16vod", chVod)]
 
 end DashLive.Driver.Inject
